@@ -687,6 +687,9 @@ def generate(vc_path, out_dir, canary=False, lenient=False):
                     fs.hides = getattr(fs, "hides", []) + s.arg.split()
                 elif s.name == "bodyless":
                     fs.bodyless = True
+                elif s.name == "rename":
+                    # the function is emitted under another name (specialised copies of one source function)
+                    fs.emit_name = s.arg.strip()
                 elif s.name == "unclaimed":
                     # obligations of this function that are NOT claimed (reported as unproved, never as violations)
                     for k4 in s.arg.split():
@@ -704,6 +707,9 @@ def generate(vc_path, out_dir, canary=False, lenient=False):
             it = cands[0]
             line = f.src.count("\n", 0, it.start) + 1
             where = "%s:%d" % (rel, line)
+            if getattr(fs, "emit_name", None):
+                fs.subs.insert(0, (r"\bfn %s\b" % re.escape(name), "fn %s" % fs.emit_name, "emitted under the name %s (specialised copy of %s)" % (fs.emit_name, name)))
+                fs.name = fs.emit_name
             obl, rewritten = apply_fn(fs, it.text, unit_id, rewrites_log, out, where, canary=canary, lenient=lost_hints)
             obligations += obl
             if block is not None and block_directive is not None and block_directive.name == "impl" and not fs.bodyless \
@@ -711,8 +717,8 @@ def generate(vc_path, out_dir, canary=False, lenient=False):
                 # a verified trait-method implementation without a contract of its own: the inherited postconditions
                 # are its obligations (the verifier reports them at the trait declaration)
                 obligations += [o for o in trait_sig_obl[name] if o not in obligations]
-            erasure.append(("fn " + name, rewritten if not fs.bodyless else None))
-            functions.append({"fn": name, "path": where,
+            erasure.append(("fn " + fs.name, rewritten if not fs.bodyless else None))
+            functions.append({"fn": fs.name, "path": where,
                               "sha256": hashlib.sha256(it.text.encode()).hexdigest()[:16],
                               "assumed": any("external_body" in a for a in fs.attrs)})
         else:
